@@ -131,6 +131,7 @@ type Sim struct {
 	pctLow   int
 
 	steps   int
+	yields  int
 	aborted string
 	hash    uint64
 	sfp     uint64
@@ -356,6 +357,17 @@ func Yield() {
 	}
 	if s.cfg.CheckIdentity {
 		s.checkID(t)
+	}
+	s.yields++
+	if s.yields > 40*s.cfg.MaxSteps {
+		// a task is spinning through scheduling points without ever blocking
+		// (livelock in the code under test): end the run as inconclusive
+		if s.aborted == "" {
+			s.aborted = "livelock"
+		}
+		t.blockWhat = "aborted"
+		s.park(t, StQuiesce)
+		return
 	}
 	if s.preempt() {
 		t.blockWhat = ""
